@@ -125,12 +125,24 @@ def run(ctx):
     samples = []
     hbatches = collections.Counter()
     reason_stats = collections.Counter()
+    usp_hist = collections.Counter()   # (winning Gateway valid?, #targetRefs naming referenced Services, #ancestors) of every UpstreamSettingsPolicy
+    fresh_cases = 0                    # handler-stream cases held against the statuses of a fresh handler (recovery clause)
+    svc_cases = collections.Counter()
     for l, v in zip(lines, verdicts):
         # statistic only (C07 does not prescribe the REASON of an Accepted=False condition): never a finding
         v, _, rs = v.partition(" ## ")
         for tag in filter(None, rs.split(";")):
             reason_stats[tag.partition("@")[0]] += 1
         d = json.loads(l)
+        gwsum = d["sum"].get("gateway")
+        for pol in d["sum"].get("policies") or []:
+            if pol["kind"] == "UpstreamSettingsPolicy":
+                usp_hist[f"gateway={'valid' if gwsum and gwsum['valid'] else 'invalid' if gwsum else 'none'} "
+                         f"referencedServiceTargets={pol.get('svcRefd', 0)} ancestors={len(pol['ancestors'])}"] += 1
+        if d.get("fresh") is not None and d.get("h"):
+            fresh_cases += 1
+        if "-svc" in d["id"]:
+            svc_cases["after-failed-apply" if d["reloadErr"] else "after-successful-apply"] += 1
         if d.get("h"):
             b = d["h"]["batches"][-1]
             out = "ok" if (b["w"] and b["r"] and b["api"]) else ("write-fails" if not b["w"] else
@@ -194,6 +206,9 @@ def run(ctx):
         "panics": panics,
         "generator_tags": dict(tags),
         "handler_batches": dict(hbatches),
+        "service_policy_ancestors_histogram": dict(usp_hist),
+        "handler_cases_compared_with_fresh_handler": fresh_cases,
+        "out_of_batch_gateway_writes": dict(svc_cases),
         "reason_disagreements": dict(reason_stats),
         "reason_disagreements_note": "statistic, not a verdict: Accepted=False reasons (NoMatchingParent / NotAllowedByListeners / "
                                      "NoMatchingListenerHostname) that differ from the Gateway API reading of the objects; the property "
